@@ -221,14 +221,14 @@ func ZZSessionClose(variant int) {
 	sess, _ := lc.sessionManager.(*sessionManager).sessions.Get(SessionId(sid))
 	r1, err := lc.WriteBlock(context.Background(), &proto.WriteRequest{Puts: []*proto.PutRequest{
 		{Key: "e", Value: []byte("v"), SessionId: &sid},
-		{Key: "b/c", Value: []byte("v"), SessionId: &sid}}})
+		{Key: "b/c+d%", Value: []byte("v"), SessionId: &sid}}})
 	// the expiry path is itself a concurrent writer: a write that fails because of the known write-path
 	// race (KF-C08) ends the scenario
 	if vKnown("KF-C08-concurrent-writers-reach-wal-out-of-order", err != nil) {
 		vAssert("ephemeral-write-ok", err == nil)
 	}
 	alive := r1.Puts[0].Status == proto.Status_OK
-	r2, err := lc.WriteBlock(context.Background(), &proto.WriteRequest{Puts: []*proto.PutRequest{{Key: "plain", Value: []byte("p")}}})
+	r2, err := lc.WriteBlock(context.Background(), &proto.WriteRequest{Puts: []*proto.PutRequest{{Key: "b/c d%", Value: []byte("p")}}})
 	if vKnown("KF-C08-concurrent-writers-reach-wal-out-of-order", err != nil) {
 		vAssert("plain-write-ok", err == nil)
 	}
@@ -260,18 +260,18 @@ func ZZSessionClose(variant int) {
 		return
 	}
 	vAssert("session-key-removed", !zzHas(mm, SessionKey(SessionId(sid))))
-	vAssert("shadow-keys-removed", !zzHas(mm, ShadowKey(SessionId(sid), "e")) && !zzHas(mm, ShadowKey(SessionId(sid), "b/c")))
-	vAssert("plain-record-untouched", zzHas(mm, "plain"))
+	vAssert("shadow-keys-removed", !zzHas(mm, ShadowKey(SessionId(sid), "e")) && !zzHas(mm, ShadowKey(SessionId(sid), "b/c+d%")))
+	vAssert("plain-record-untouched", zzHas(mm, "b/c d%"))
 	se := zzEntryOf(mm, "e")
 	if vKnown("KF-C14-expiry-lists-then-deletes", expiredEarly || cerr != nil) {
-		vAssert("owned-record-removed", !zzHas(mm, "b/c"))
+		vAssert("owned-record-removed", !zzHas(mm, "b/c+d%"))
 		if variant == 1 {
 			vAssert("taken-over-record-survives", se != nil && se.SessionId == nil)
 		} else {
 			vAssert("owned-record-removed-2", se == nil)
 		}
 	} else {
-		vAssert("owned-record-removed", !zzHas(mm, "b/c"))
+		vAssert("owned-record-removed", !zzHas(mm, "b/c+d%"))
 		if variant == 1 {
 			vAssert("taken-over-record-survives", se != nil && se.SessionId == nil)
 		} else {
